@@ -32,6 +32,7 @@ Inductive expr :=
 | EMultiPartsN (sep : str) (n : Z) (e0 e1 : expr)   (* callback: no completed part yet -> e0, else e1 *)
 | EList (d : str) (e : expr)
 | EUniqueList (d : str) (e : expr)
+| EPartition (vs : list str) (e : expr)   (* i := a.Invoke(c); Batch(i.Filter(vs).ToA(), i.Retain(vs).ToA()) *)
 | EBatch (es : list expr).
 
 Definition us : str := B [31].
@@ -70,6 +71,9 @@ Section Sem.
     (* List / UniqueList: items separated by d, no space after any candidate (`*`) *)
     | EList d e => List d (denote e)
     | EUniqueList d e => UniqueList d (denote e)
+    | EPartition vs e =>
+        let a := denote e in
+        callback (fun c => let i := invoke a c in Batch [Filter vs (to_a i); Retain vs (to_a i)])
     | EBatch es => Batch (map denote es)
     end.
 
@@ -155,6 +159,8 @@ Section Sem.
         let '(done, parts, cur) := mpn_split d (-1) (cvalue c) in
         let '(m, rs) := eval e (mkCtx cur (cargs c) parts) in
         (set_nospace m (B [42]), rv_prefix done (rv_filter parts rs))
+    | EPartition vs e =>
+        let '(m, rs) := eval e c in merge_invoked [(m, rv_filter vs rs); (m, rv_retain vs rs)]
     (* Batch: union by inserted value (later member wins), meta united, last non-empty usage *)
     | EBatch es =>
         merge_invoked ((fix go (l : list expr) : list invoked :=
